@@ -128,7 +128,9 @@ def run_case(rng, f, Z, o, tier):
         if tol > 1e-3:
             return res
         res["judged"] = True
-        variants = [("z", 2.0 ** rng.randint(-20, 20)), ("z", 10 ** rng.uniform(-6, 6)), ("f", 2.0 ** rng.randint(-10, 10)), ("f", 10 ** rng.uniform(-3, 3)), ("order", 1.0)]
+        # the ends of the stated ranges are always exercised, the interior is sampled
+        variants = [("z", 2.0 ** 20), ("z", 2.0 ** -20), ("z", 2.0 ** rng.randint(-20, 20)), ("z", 10 ** rng.uniform(-6, 6)),
+                    ("f", 2.0 ** 10), ("f", 2.0 ** -10), ("f", 2.0 ** rng.randint(-10, 10)), ("f", 10 ** rng.uniform(-3, 3)), ("order", 1.0)]
         for variant, factor in variants:
             sb = sentinel_bound(o, f, Z)
             if variant == "z":
@@ -172,7 +174,7 @@ def run(rep, tier, seed, tr_errors):
                 except Exception as e:  # noqa
                     bad.append((o, [{"variant": "-", "factor": 1, "observed": "raised %s: %s" % (type(e).__name__, str(e)[:200])}]))
                     continue
-                rep.evaluations += 6 if res["judged"] else 1
+                rep.evaluations += 10 if res["judged"] else 1
                 key = "%s/%s" % (test, "Y" if adm else "Z")
                 st = stats.setdefault(key, {"judged": 0, "ill_conditioned": 0})
                 if not res["judged"]:
@@ -193,7 +195,7 @@ def run(rep, tier, seed, tr_errors):
                 if res["problems"]:
                     bad.append((o, res["problems"]))
     rep.extra["pipeline"] = {"by_test": stats, "judged": judged, "ill_conditioned_not_judged": skipped}
-    rep.oblige("pipeline: residuals and chi-squared invariant, parameters rescale", not bad and judged > 0, "%d judged base runs x 5 variants, %d not judged, %d with differences" % (judged, skipped, len(bad)))
+    rep.oblige("pipeline: residuals and chi-squared invariant, parameters rescale", not bad and judged > 0, "%d judged base runs x 9 variants, %d not judged, %d with differences" % (judged, skipped, len(bad)))
     for n_, (o, probs) in enumerate(bad[:5]):
         inp = dict(o)
         inp["differences"] = probs[:4]
